@@ -43,6 +43,11 @@ CLAIMED = {
    note="Trusts go/types, go/ssa, VTA call graph; explicit data flow only; integer overflow not modelled except for the chunk-parser cursor; reviewed exceptions are listed in the evidence with their reasons.",
    technique="static analysis: field-based taint/dependence graph + path-sensitive guard and interval reasoning over SSA (fault classes A-F)",
    ref="DESIGN.md §2 E3, §3 C08"),
+ "C09": dict(
+   text="Static analysis of structural necessary conditions of chunked delivery: every call of the chunk writer in the pacing loop is control-dependent on a comparison 'chunk end < now' (operand roles checked: the end side depends on the accumulated chunk durations, the segment's media time and the availability start time, the other side on the request time) or follows a sleep whose duration depends on all of them; the writer flushes before every successful return; durations recorded for chunks closed inside the sample loop depend on the sample durations; the chunk duration used as divisor is proven positive; chunks are written only after the shared segment generator (with its availability test) succeeded; the first chunk gets the styp, later ones none. Sample equality, contiguity and the per-chunk time bound are not decided.",
+   note="time.Sleep is trusted; dependence slices over-approximate (a missing dependence is definite); E3-A assumptions as for C08.",
+   technique="static analysis: dominance/control rules + dependence slices over SSA, interval rule on divisors",
+   ref="DESIGN.md §3 C09"),
  "C18": dict(
    text="Static analysis (SSA control-flow walk + range/guard analysis) of two structural necessary conditions: every callback/read error is returned on all non-nil paths, and the box-walk cursor provably advances and cannot wrap. Decides those clauses for every input and read schedule; does not decide output equality.",
    note="Trusts go/types, go/ssa; VTA call graph for reachability; integer overflow only modelled where a rule says so.",
